@@ -63,6 +63,10 @@ func enter(name string, ctx context.Context, hasCtx bool, args ...types.MalType)
 		panic(Sentinel)
 	case "panic-val":
 		panic("verif-panic-value")
+	case "panic-map":
+		panic(types.HashMap{Val: map[string]types.MalType{"\u029ecode": 42}})
+	case "panic-int":
+		panic(42)
 	case "panic-runtime":
 		var m map[string]int
 		m["boom"] = 1 // a runtime.Error
